@@ -13,6 +13,7 @@ from .contract import Contract, Lemma, Loop
 from .exprs import BreakEx, ContinueEx, Exprs, Frame, RaiseEx, ReturnEx
 from .loader import ClassInfo, FuncInfo, Loader, Module
 from .path import Obligation, Path, PathEnd
+from .quant import Quant
 from .stmts import Stmts, exc_matches
 from .symgen import SymGen
 from .values import (SEQ, NONE, V, VBool, VDict, VEnum, VExc, VExt, VInt, VList, VNoneT, VOpaque, VOpt, VSet,
@@ -25,10 +26,13 @@ class Engine:
         self.contracts: Dict[str, Contract] = {}
         self.class_ids: Dict[str, int] = {}
         self.spec_cache: Dict[str, ast.expr] = {}
+        self.global_folds: Dict[str, Tuple[str, str, str]] = {}  # name -> (sort, init, step lambda)
         self._tagof = z3.Function("tagof", z3.IntSort(), z3.IntSort())
         self.functions_seen: Dict[str, Dict[str, Any]] = {}
         self.ext_methods: Dict[Tuple[str, str], Callable[..., V]] = {}
         self.regex_cache: Dict[str, Any] = {}
+        self.ext_attrs: Dict[Tuple[str, str], Callable[..., V]] = {}
+        self.ext_binops: Dict[Tuple[str, str], Callable[..., V]] = {}
 
     def register(self, c: Contract) -> Contract:
         if c.use_as_callee and c.target not in self.contracts:
@@ -114,7 +118,7 @@ def _regex_to_z3(pat: str) -> Any:
     return conv(sre_parse.parse(pat))
 
 
-class Interp(SymGen, Exprs, Stmts, Calls, Builtins):
+class Interp(SymGen, Exprs, Stmts, Calls, Builtins, Quant):
     helpers = HELPERS
 
     def __init__(self, engine: Engine, path: Path, unit: Any):
@@ -243,6 +247,8 @@ def verify_function(engine: Engine, c: Contract, ob_timeout_ms: int = 10000) -> 
             v = it.mk_sym(ann, fi.module, g)
             fr.env[g] = v
             it.register_model_terms(g, v)
+            if isinstance(v, VInt):
+                it.register_index(v.t)
         if c.setup is not None:
             c.setup(it, fr)
         # preconditions: the repository's own and the sidecar's
@@ -250,14 +256,17 @@ def verify_function(engine: Engine, c: Contract, ob_timeout_ms: int = 10000) -> 
             for lam, desc in fi.requires:
                 lfr = Frame(fi.module, None, {x.arg: fr.env[x.arg] for x in lam.args.args}, None)
                 lfr.in_spec = True
-                path.assume(it.truthy(it.ev(lam.body, lfr)))
+                it.assume_term(it.truthy(it.ev(lam.body, lfr)))
         for nm, ex in c.requires:
             it.assume_spec(ex, fr)
         for ex in c.facts:
             it.assume_spec(ex, fr)
         # old(...) values
         olds: Dict[str, V] = {}
-        for nm, ex in c.ensures + c.twins:
+        loop_specs = []
+        for lp in c.loops.values():
+            loop_specs += lp.invariants + lp.body_ensures + lp.body_twins
+        for nm, ex in c.ensures + c.twins + loop_specs:
             for n in ast.walk(it.parse_spec(ex)):
                 if isinstance(n, ast.Call) and isinstance(n.func, ast.Name) and n.func.id == "old":
                     olds[ast.dump(n.args[0])] = it.eval_spec(ast.unparse(n.args[0]), fr)
@@ -314,7 +323,7 @@ def verify_function(engine: Engine, c: Contract, ob_timeout_ms: int = 10000) -> 
                 goal = it.truthy(it.ev(lam.body, lfr))
                 o = Obligation(f"{fi.qualname}:repo-ensure#{k}", "postcondition", fi.qualname,
                                lam.lineno, "@ensure " + ast.unparse(lam.body)[:100])
-                path.oblige(goal, o)
+                path.oblige(it.goal_term(goal), o)
         for nm, ex in c.ensures:
             it.oblige_spec(nm, ex, "postcondition", fi.node, pfr)
         for nm, ex in c.twins:
@@ -375,7 +384,7 @@ def _oblige_lemma(it: Interp, lm: Lemma, nm: str, ex: str, fr: Frame, twin: bool
     goal = it.truthy(it.ev(node, fr))
     o = Obligation(f"lemma:{lm.name}:{nm}", "lemma", lm.name, 0, ex)
     o.twin = twin
-    it.path.oblige(goal, o, assume_after=not twin)
+    it.path.oblige(it.goal_term(goal), o, assume_after=not twin)
 
 
 def _register_model_terms(self: Interp, name: str, v: V) -> None:
